@@ -214,6 +214,10 @@ class C20(Check):
                       'suffix': rng.choice(('', '.conf', '.x.y')),
                       'pre_files': rng.randint(0, 3),
                       'repeat': rng.randint(1, 3),
+                      # between two calls the directory (or its top-most
+                      # created ancestor) disappears: "creating missing
+                      # directories first" holds for every call
+                      'rm_between': rng.choice((None, None, 'leaf', 'top')),
                       'fault': rng.choice(
                           (None, None, None, ['write', errno.ENOSPC],
                            ['write', errno.EIO], ['close', errno.EIO],
@@ -505,6 +509,14 @@ class C20(Check):
                         if f.read() != b'old':
                             self.viol('existing_file_modified', path=q)
                 results.append(p)
+                rmb = case.get('rm_between')
+                if rmb and depth and rep + 1 < case['repeat']:
+                    victim = d if rmb == 'leaf' else os.path.join(
+                        work, 'd%d' % min(case['existing_depth'], depth - 1))
+                    if os.path.isdir(victim) and victim != work:
+                        shutil.rmtree(victim)
+                        pre.clear()
+                        self.bump('probes', 'directory_removed_between_calls')
         finally:
             if depth is None:
                 tempfile.tempdir = old_td
@@ -639,7 +651,7 @@ class C20(Check):
 
     def reducers(self, case):
         for k in ('short', 'fault', 'seek_errno', 'twice', 'real',
-                  'pre_files', 'default_args'):
+                  'pre_files', 'default_args', 'rm_between'):
             if case.get(k):
                 c = copy.deepcopy(case)
                 c[k] = [] if k == 'short' else (0 if k == 'pre_files'
